@@ -68,7 +68,7 @@ pub fn replay_file(path: &str) -> i32 {
         "reader" | "reader-long" => bitreader::replay(case),
         "interleaving" => determinism::replay(case),
         "header" => headers::replay(case),
-        "split" => atomic::replay(case),
+        "split" | "large" => atomic::replay(case),
         "stream" => stream::replay(case),
         "decode" => common::replay_decode(case),
         "deblock" => deblock::replay(case),
